@@ -13,8 +13,15 @@ CACHE = os.path.join(VERIF, ".cache")
 
 
 def repo_hash():
-    """Content hash of everything the build reads: *.rs, Cargo.toml, Cargo.lock (target/ and .git excluded)."""
+    """Content hash of everything the build reads: *.rs, Cargo.toml, Cargo.lock (target/ and .git excluded),
+    plus the fact extractor's own source (a changed driver invalidates cached facts)."""
     h = hashlib.sha256()
+    for drv in ("tools/factdrv/src/main.rs", "tools/extract.sh"):
+        try:
+            with open(os.path.join(VERIF, drv), "rb") as fh:
+                h.update(fh.read())
+        except OSError:
+            pass
     paths = []
     for root, dirs, files in os.walk(REPO):
         dirs[:] = sorted(d for d in dirs if d not in ("target", ".git", "node_modules"))
